@@ -187,10 +187,15 @@ class Program:
             raw = _LAMBDA_RE.sub(repl, raw)
             d = json.loads(raw)
         self.units.append(d["unit"])
+        self.size_t_bits = d.get("size_t_bits", getattr(self, "size_t_bits", None))
         for f in d.get("files", []):
             self.files.add(f)
         for fd in d["functions"]:
             fn = Fn(fd, d["unit"])
+            if fn.id in self.fns and (self.fns[fn.id].file, self.fns[fn.id].line) != (fn.file, fn.line) and fn.has_cfg and self.fns[fn.id].has_cfg \
+                    and fn.file == self.fns[fn.id].file:
+                # two definitions with one signature in one file (overloads told apart by SFINAE only): keep both
+                fn.id = "%s @%s" % (fn.id, fn.line)
             if fn.id in self.fns:
                 self.dups += 1
                 # prefer one with a CFG
